@@ -35,7 +35,10 @@ def is_bifurcate(topology: Topology, *, exclude_root: bool = True) -> bool:
 
     root = children[-1]
     for k, v in children.items():
-        if len(v) > 1 and (not exclude_root or k in root):
+        if k == -1:  # virtual parent of roots
+            continue
+
+        if len(v) > 2 and not (exclude_root and k in root):
             return False
 
     return True
